@@ -150,12 +150,12 @@ pub struct Scenario {
     /// call sync() explicitly after every completed write and on the fresh writer
     pub idle_syncs: bool,
     /// construct the writer with `with_buffer` and a recycled buffer (stale content, spare capacity)
-    pub dirty: bool,
+    pub ctor: u8,
 }
 
 impl Scenario {
     fn json(&self) -> serde_json::Value {
-        json!({"values": self.values.iter().map(|v| v.name()).collect::<Vec<_>>(), "max_len": self.max_len, "idle_syncs": self.idle_syncs, "with_buffer": self.dirty})
+        json!({"values": self.values.iter().map(|v| v.name()).collect::<Vec<_>>(), "max_len": self.max_len, "idle_syncs": self.idle_syncs, "constructor": self.ctor})
     }
 }
 
@@ -222,7 +222,7 @@ pub fn run_once(sc: &Scenario, lim: Limits, ch: SharedChooser, obs_out: &mut Opt
         lim,
         ch: ch.clone(),
     }));
-    let mut writer = if sc.dirty { AsyncWriter::with_buffer(Sink(st.clone()), dirty_buffer()) } else { AsyncWriter::new(Sink(st.clone())) };
+    let mut writer = if sc.ctor != 0 { AsyncWriter::with_buffer(Sink(st.clone()), dirty_buffer(sc.ctor)) } else { AsyncWriter::new(Sink(st.clone())) };
     let max_len = match sc.max_len {
         Some(m) => {
             writer.set_max_len(m);
@@ -333,6 +333,11 @@ pub fn run_once(sc: &Scenario, lim: Limits, ch: SharedChooser, obs_out: &mut Opt
                     }
                     keys.push(hash64(&(writer.verif_state(), s.received.len(), vi, s.errors, s.zeros, drops)));
                 }
+                if sc.ctor != 0 {
+                    // a frame is in flight: the setter must not disturb it
+                    writer.set_max_len(0);
+                    writer.set_max_len(max_len as u32);
+                }
                 let r = drive(Box::pin(writer.sync()), &st, &ch, &mut drops, lim.d, "sync")?;
                 match r {
                     Done::Ready(Ok(())) => break,
@@ -395,26 +400,34 @@ pub fn scenarios(tier: Tier) -> (Vec<Scenario>, Limits, String) {
                 if idle && ml.is_some() {
                     continue;
                 }
-                out.push(Scenario { values: s.clone(), max_len: ml, idle_syncs: idle, dirty: false });
+                out.push(Scenario { values: s.clone(), max_len: ml, idle_syncs: idle, ctor: 0 });
             }
         }
         // the recycled-buffer constructor: all sequences in the thorough tier, those of <= 1 value (and the pairs starting with a failing value) in the quick tier
         if tier == Tier::Thorough || s.len() <= 1 || matches!(s[0], Val::FailEnc | Val::PartialFail) {
-            out.push(Scenario { values: s.clone(), max_len: None, idle_syncs: true, dirty: true });
+            out.push(Scenario { values: s.clone(), max_len: None, idle_syncs: true, ctor: 1 });
+            if s.len() <= 1 {
+                out.push(Scenario { values: s.clone(), max_len: None, idle_syncs: false, ctor: 2 });
+                out.push(Scenario { values: s.clone(), max_len: None, idle_syncs: false, ctor: 3 });
+            }
         }
     }
     for big in large_frames() {
         let v = Val::Arr(big.value.clone().unwrap());
         let l = big.payload.len() as u32;
         let huge = l > 1000;
-        if huge && tier == Tier::Quick && l != 65536 {
+        if huge && tier == Tier::Quick && l != 65536 && l < 500_000 {
+            continue;
+        }
+        if l >= 500_000 {
+            out.push(Scenario { values: vec![v.clone(), Val::Arr(vec![5])], max_len: None, idle_syncs: false, ctor: 0 });
             continue;
         }
         let seqs = if huge || tier == Tier::Quick { vec![vec![v.clone()]] } else { vec![vec![v.clone()], vec![Val::Arr(vec![5]), v.clone()], vec![v.clone(), Val::FailEnc]] };
         for seq in seqs {
-            out.push(Scenario { values: seq.clone(), max_len: None, idle_syncs: false, dirty: false });
-            out.push(Scenario { values: seq.clone(), max_len: Some(l), idle_syncs: true, dirty: true });
-            out.push(Scenario { values: seq.clone(), max_len: Some(l - 1), idle_syncs: false, dirty: false });
+            out.push(Scenario { values: seq.clone(), max_len: None, idle_syncs: false, ctor: 0 });
+            out.push(Scenario { values: seq.clone(), max_len: Some(l), idle_syncs: true, ctor: 1 });
+            out.push(Scenario { values: seq.clone(), max_len: Some(l - 1), idle_syncs: false, ctor: 0 });
         }
     }
     // largest scenarios first so that the dynamic sharding balances
@@ -505,7 +518,7 @@ pub fn replay_case(case: &serde_json::Value) -> Result<(), String> {
             s => Val::Arr(serde_json::from_str::<Vec<u8>>(s).unwrap()),
         })
         .collect();
-    let scen = Scenario { values, max_len: sc["max_len"].as_u64().map(|x| x as u32), idle_syncs: sc["idle_syncs"].as_bool().unwrap_or(false), dirty: sc["with_buffer"].as_bool().unwrap_or(false) };
+    let scen = Scenario { values, max_len: sc["max_len"].as_u64().map(|x| x as u32), idle_syncs: sc["idle_syncs"].as_bool().unwrap_or(false), ctor: sc["constructor"].as_u64().unwrap_or(0) as u8 };
     let l = &case["limits"];
     let g = |k: &str| l[k].as_u64().unwrap() as u32;
     let lim = Limits { p: g("p"), e: g("e"), d: g("d"), z: g("z"), b: g("b") };
